@@ -1,0 +1,110 @@
+//go:build verif
+
+package zcnsc
+
+import (
+	"sort"
+	"strconv"
+
+	cstate "0chain.net/chaincore/chain/state"
+	"0chain.net/smartcontract/partitions"
+	"0chain.net/smartcontract/stakepool"
+	"0chain.net/smartcontract/stakepool/spenum"
+	"github.com/0chain/common/core/util"
+)
+
+// Verification hook (build tag `verif` only): read-only snapshot of the bridge state, decoded with
+// the contract's own keys and types.  Add-only; not compiled without the tag.
+
+// VerifBridgeAuth is one authorizer as stored: node, stake pool totals.
+type VerifBridgeAuth struct {
+	Registered bool   // authorizer node present (GetAuthorizerNode succeeds)
+	PublicKey  string // as stored in the node
+	HasPool    bool
+	Stake      uint64 // sum of delegate pool balances
+	Reward     uint64 // provider reward + sum of delegate pool rewards (not yet collected)
+	BelowMin   bool   // stake below the pool's min stake, as the contract's own getStakePool decodes the node
+}
+
+// VerifBridgeState is what the bridge properties talk about.
+type VerifBridgeState struct {
+	AuthCount    int              // stored authorizer counter (getAuthorizerCount)
+	Percent      float64          // global node percent_authorizers
+	MinMint      uint64           // global node
+	MinBurn      uint64           // global node
+	MaxFee       uint64           // global node
+	BurnNonce    map[string]int64 // user node burn nonce per ethereum address asked for
+	MintedNonces []int64          // every item of the minted-nonce partitions, sorted
+	Auths        map[string]VerifBridgeAuth
+}
+
+// VerifBridgeSnapshot reads the bridge state through the given (real) state context.
+func VerifBridgeSnapshot(ctx cstate.StateContextI, eths []string, auths []string) (*VerifBridgeState, error) {
+	s := &VerifBridgeState{BurnNonce: map[string]int64{}, Auths: map[string]VerifBridgeAuth{}, MintedNonces: []int64{}}
+	gn, err := GetGlobalNode(ctx)
+	if err != nil {
+		return nil, err
+	}
+	s.Percent, s.MinMint, s.MinBurn, s.MaxFee = gn.PercentAuthorizers, uint64(gn.MinMintAmount), uint64(gn.MinBurnAmount), uint64(gn.MaxFee)
+	if s.AuthCount, err = getAuthorizerCount(ctx); err != nil {
+		return nil, err
+	}
+	for _, e := range eths {
+		un, err := GetUserNode(e, ctx)
+		if err != nil {
+			return nil, err
+		}
+		s.BurnNonce[e] = un.BurnNonce
+	}
+	p, err := partitions.GetPartitions(ctx, wzcnMintedNoncePartitionName)
+	switch err {
+	case nil:
+		var perr error
+		if err := p.ForEach(ctx, func(_ int, id string, _ []byte) bool {
+			n, e := strconv.ParseInt(id, 10, 64)
+			if e != nil {
+				perr = e
+				return true
+			}
+			s.MintedNonces = append(s.MintedNonces, n)
+			return false
+		}); err != nil {
+			return nil, err
+		}
+		if perr != nil {
+			return nil, perr
+		}
+	case util.ErrValueNotPresent:
+	default:
+		return nil, err
+	}
+	sort.Slice(s.MintedNonces, func(i, j int) bool { return s.MintedNonces[i] < s.MintedNonces[j] })
+	for _, id := range auths {
+		a := VerifBridgeAuth{}
+		n, err := GetAuthorizerNode(id, ctx)
+		switch err {
+		case nil:
+			a.Registered, a.PublicKey = true, n.PublicKey
+		case util.ErrValueNotPresent:
+		default:
+			return nil, err
+		}
+		sp := NewStakePool()
+		err = ctx.GetTrieNode(stakepool.StakePoolKey(spenum.Authorizer, id), sp)
+		switch err {
+		case nil:
+			a.HasPool = true
+			a.Reward = uint64(sp.Reward)
+			for _, dp := range sp.Pools {
+				a.Stake += uint64(dp.Balance)
+				a.Reward += uint64(dp.Reward)
+			}
+			a.BelowMin = a.Stake < uint64(sp.Settings.MinStake)
+		case util.ErrValueNotPresent:
+		default:
+			return nil, err
+		}
+		s.Auths[id] = a
+	}
+	return s, nil
+}
